@@ -296,6 +296,10 @@ class SchemaValidator:
     def _validate_resolver_arguments(
         self, path: str, args: Sequence[Argument], resolver: Callable[..., Any],
     ) -> None:
+        if not callable(resolver):
+            self.add_error('Resolver for "%s" is not callable' % path)
+            return
+
         try:
             # The executor calls `resolver` itself: do not look through
             # `functools.wraps` (`__wrapped__`) at the function it decorates.
